@@ -397,6 +397,9 @@ repairs before they were committed.
   statements / conjuncts / declarations, flipped comparisons, inverted `if/else`, expanded `+=`, literal for const,
   `f64::max` call form): **0 false alarms**, 23 verify, 2 undecided (`f64::max(a, b)` call form has no rule; an inverted
   `if/else` whose both branches carry annotations loses an anchor).
+* **The unchanged tree**: with the final contracts every quick command exits 0 for `VERIF_SEED` 1, 2 and 5 and every thorough command for seed 1
+  (about 3 min for the 20 quick checks run three at a time; the thorough tier takes between 20 s and 10 min per property, C07's bounded Kani harness being the longest);
+  the harness's own dry run (`vp check`: fresh restore, no network, quick tier, evidence rewritten) reported nothing.
 * **Rename campaign** (`tools/renames.py`, `harmless/RENAMES.json`): every `let`-bound local of every function under contract renamed
   (137 single renames): 94 verify unchanged (the merge follows consistent renames of locals, §2.1), 43 undecided, **0 alarms**.
 * **Small edits** (`harmless/h3_*`: 16 one-minute clean-ups — a renamed local, a flipped comparison, a hoisted sub-expression — each written by a sub-agent
